@@ -181,7 +181,7 @@ func buildWorker(scratch, variant string) (string, *rewrite.Stats) {
 		fatal2("rewrite failed (exit 2, not a verdict): %v", err)
 	}
 	bin := filepath.Join(scratch, "simworker")
-	cmd := exec.Command(goBin(), "build", "-overlay", ov, "-o", bin, "./cmd/simworker")
+	cmd := exec.Command(goBin(), append(append([]string{"build"}, modfileArgs(scratch)...), "-overlay", ov, "-o", bin, "./cmd/simworker")...)
 	cmd.Dir = verifDir
 	cmd.Env = append(os.Environ(), goEnv()...)
 	out, err := cmd.CombinedOutput()
@@ -189,6 +189,29 @@ func buildWorker(scratch, variant string) (string, *rewrite.Stats) {
 		fatal2("building the worker from /repo's working tree failed (exit 2, not a verdict): %v\n%s", err, out)
 	}
 	return bin, st
+}
+
+// modfileArgs: with VERIF_REPO set (a scratch worktree of the repository under
+// test, used by the sensitivity sweeps so that /repo stays untouched) the build
+// uses a copy of the harness's go.mod whose replace directive points there.
+func modfileArgs(scratch string) []string {
+	if repoDir() == "/repo" {
+		return nil
+	}
+	b, err := os.ReadFile(filepath.Join(verifDir, "go.mod"))
+	if err != nil {
+		fatal2("go.mod: %v", err)
+	}
+	mod := strings.Replace(string(b), "=> /repo", "=> "+repoDir(), 1)
+	os.MkdirAll(scratch, 0o755)
+	mf := filepath.Join(scratch, "go.mod")
+	if err := os.WriteFile(mf, []byte(mod), 0o644); err != nil {
+		fatal2("go.mod: %v", err)
+	}
+	if sum, err := os.ReadFile(filepath.Join(verifDir, "go.sum")); err == nil {
+		os.WriteFile(filepath.Join(scratch, "go.sum"), sum, 0o644)
+	}
+	return []string{"-modfile=" + mf}
 }
 
 // workerProcs is the GOMAXPROCS of search workers (VERIF_WORKER_PROCS overrides).
@@ -560,7 +583,7 @@ func cmdCheck(args []string) {
 	raceInfo := map[string]any{}
 	if cfg.RaceCompanion && violations == 0 {
 		rbin := filepath.Join(scratch, "racecomp")
-		cmd := exec.Command(goBin(), "build", "-race", "-o", rbin, "./cmd/racecomp")
+		cmd := exec.Command(goBin(), append(append([]string{"build"}, modfileArgs(scratch)...), "-race", "-o", rbin, "./cmd/racecomp")...)
 		cmd.Dir = verifDir
 		cmd.Env = append(os.Environ(), goEnv()...)
 		if out, err := cmd.CombinedOutput(); err != nil {
